@@ -8,8 +8,9 @@
 # everything in /verif/seeded/<ID>-<k>/ (patch.diff, demo, meta.json, confirm.log).
 export GOFLAGS=-mod=mod GOPROXY=off GOSUMDB=off GOTOOLCHAIN=local
 ID=$1; K=$2; shift 2; CHECKS=${@:-$ID}
-SRC=/tmp/seed/out/$ID/$K
-OUT=/verif/seeded/$ID-$K
+ROOT=${SEEDROOT:-/tmp/seed}; OFF=${SEEDOFF:-0}
+SRC=$ROOT/out/$ID/$K
+OUT=/verif/seeded/$ID-$((K+OFF))
 [ -f $SRC/patch.diff ] || { echo "no patch in $SRC"; exit 2; }
 WT=/tmp/confirm-$ID-$K
 rm -rf $WT; git -C /repo worktree prune; git -C /repo worktree add -q --detach $WT || exit 2
@@ -20,18 +21,24 @@ LOG=$OUT/confirm.log; : > $LOG
 copy_to=$(jq -r '.demo.copy_to // empty' $SRC/meta.json 2>/dev/null)
 cmd=$(jq -r '.demo.command // empty' $SRC/meta.json 2>/dev/null)
 echo "demo.copy_to=$copy_to" >> $LOG; echo "demo.command=$cmd" >> $LOG
+rel=$(echo "$copy_to" | awk '{print $1}' | sed "s#^$ROOT/$ID/##; s#[,;)]*\$##")
 place_demo() {
   if [ -f $SRC/demo_test.go ]; then
-    tgt=$(echo "$copy_to" | sed "s#/tmp/seed/$ID#$WT#")
-    case "$tgt" in *.go) mkdir -p $(dirname $tgt); cp $SRC/demo_test.go $tgt;; *) mkdir -p $tgt; cp $SRC/demo_test.go $tgt/;; esac
+    case "$rel" in
+      *.go) mkdir -p $WT/$(dirname $rel); cp $SRC/demo_test.go $WT/$rel;;
+      "") cp $SRC/demo_test.go $WT/vm/zz_seed_demo_test.go;;
+      *) mkdir -p $WT/$rel; cp $SRC/demo_test.go $WT/$rel/zz_seed_demo_test.go;;
+    esac
   fi
   if [ -d $SRC/demo ]; then
-    tgt=$(echo "$copy_to" | sed "s#/tmp/seed/$ID#$WT#")
-    [ -z "$tgt" ] && tgt=$WT/zz_demo
-    mkdir -p $tgt; cp -r $SRC/demo/* $tgt/
+    case "$rel" in
+      *.go) mkdir -p $WT/$(dirname $rel); cp $SRC/demo/main.go $WT/$rel;;
+      "") mkdir -p $WT/zz_demo; cp -r $SRC/demo/* $WT/zz_demo/;;
+      *) mkdir -p $WT/$rel; cp -r $SRC/demo/* $WT/$rel/;;
+    esac
   fi
 }
-run_demo() { (cd $WT && eval "$(echo "$cmd" | sed "s#/tmp/seed/$ID#$WT#g")") >> $LOG 2>&1; }
+run_demo() { (cd $WT && eval "$(echo "$cmd" | sed "s#$ROOT/$ID#$WT#g")") >> $LOG 2>&1; }
 # --- without the mutant
 place_demo
 echo "== demo on unchanged tree" >> $LOG
@@ -60,7 +67,7 @@ git -C /repo worktree remove --force $WT
 caught=""; for c in $CHECKS; do caught="$caught\"$c\": ${res[$c]}, "; done
 cat > $OUT/meta.json <<JSON
 {
- "seed": "$ID-$K",
+ "seed": "$ID-$((K+OFF))",
  "breaks_property": "$ID",
  "agent_meta": $(cat $SRC/meta.json 2>/dev/null || echo null),
  "confirmed": {"demo_exit_unchanged_tree": $demo_clean, "demo_exit_with_mutant": $demo_mut, "suite_failures_other_than_TestRunInteractive": $only_interactive},
